@@ -732,6 +732,14 @@ pub fn c20_consistent_hash(nb: usize, kind: HasherKind, name: &str, reqs: &[u64]
     let mut out = Outcome::default();
     out.desc = desc;
     let (bs, _counts, seen) = backends(nb, true);
+    // the backend list may have spare capacity (built by pushes): only `len` backends are valid
+    let bs = if reqs.len() % 2 == 0 {
+        let mut v = Vec::with_capacity(nb + 1 + nb % 7);
+        v.extend(bs);
+        v
+    } else {
+        bs
+    };
     let ch = match ConsistentHash::with_hasher(bs, HB(kind, Default::default())) {
         Ok(c) => c,
         Err(e) => {
@@ -786,11 +794,13 @@ pub fn c20_consistent_hash(nb: usize, kind: HasherKind, name: &str, reqs: &[u64]
 struct RetryBackend {
     calls: Rc<RefCell<Vec<(*const String, String)>>>,
     results: Rc<Vec<Result<u64, String>>>,
+    ctxs: Rc<RefCell<Vec<context::Context>>>,
 }
 impl Stub for RetryBackend {
     type Req = Arc<String>;
     type Resp = u64;
-    async fn call(&self, _ctx: context::Context, request: Arc<String>) -> Result<u64, RpcError> {
+    async fn call(&self, ctx: context::Context, request: Arc<String>) -> Result<u64, RpcError> {
+        self.ctxs.borrow_mut().push(ctx);
         let n = self.calls.borrow().len();
         self.calls.borrow_mut().push((Arc::as_ptr(&request), (*request).clone()));
         match self.results.get(n).cloned().unwrap_or(Ok(900 + n as u64)) {
@@ -805,11 +815,12 @@ impl Stub for RetryBackend {
 }
 
 /// policy: retry[i] says whether to retry after attempt i+1; after the script ends: decline
-pub fn c20_retry(policy: &[bool], results: &[Result<u64, String>], desc: serde_json::Value) -> Outcome {
+pub fn c20_retry(policy: &[bool], results: &[Result<u64, String>], deadline_class: u8, desc: serde_json::Value) -> Outcome {
     let mut out = Outcome::default();
     out.desc = desc;
     let calls = Rc::new(RefCell::new(vec![]));
-    let be = RetryBackend { calls: calls.clone(), results: Rc::new(results.to_vec()) };
+    let ctxs = Rc::new(RefCell::new(vec![]));
+    let be = RetryBackend { calls: calls.clone(), results: Rc::new(results.to_vec()), ctxs: ctxs.clone() };
     let seen_attempts: Rc<RefCell<Vec<(u32, Result<u64, String>)>>> = Rc::new(RefCell::new(vec![]));
     let sa = seen_attempts.clone();
     let pol = policy.to_vec();
@@ -827,7 +838,17 @@ pub fn c20_retry(policy: &[bool], results: &[Result<u64, String>], desc: serde_j
         pol.get(k).copied().unwrap_or(false)
     });
     let req = format!("request-{}", policy.len());
-    let got = catch_unwind(AssertUnwindSafe(|| retry.call(context::current(), req.clone()).now_or_never()));
+    // the caller's context: a deadline that already passed / 2 s / the 10 s default / 30 s ahead
+    let mut cctx = context::current();
+    let now = std::time::Instant::now();
+    cctx.deadline = match deadline_class {
+        0 => now,
+        1 => now + std::time::Duration::from_secs(2),
+        2 => cctx.deadline,
+        _ => now + std::time::Duration::from_secs(30),
+    };
+    cctx.trace_context.trace_id = trace::TraceId::from(0x5EED_0000u128 + policy.len() as u128);
+    let got = catch_unwind(AssertUnwindSafe(|| retry.call(cctx, req.clone()).now_or_never()));
     let got = match got {
         Ok(Some(r)) => match r {
             Ok(v) => Ok(v),
@@ -880,11 +901,26 @@ pub fn c20_retry(policy: &[bool], results: &[Result<u64, String>], desc: serde_j
             out.viol("C20", "retry-policy-saw-wrong-result", format!("at attempt {} the policy saw {r:?}, the backend returned {w:?}", k + 1));
         }
     }
+    // every attempt is issued for the same caller: same deadline, same trace id
+    for (k, c) in ctxs.borrow().iter().enumerate() {
+        if c.deadline != cctx.deadline {
+            let d = if c.deadline > cctx.deadline { c.deadline - cctx.deadline } else { cctx.deadline - c.deadline };
+            out.viol("C07", "retry-attempt-deadline-changed", format!("attempt {} of a retried call carried a deadline {d:?} away from the caller's", k + 1));
+            out.viol("C20", "retry-attempt-context-changed", format!("attempt {} carried a different deadline ({d:?} off) than the caller passed", k + 1));
+            break;
+        }
+        if c.trace_context.trace_id != cctx.trace_context.trace_id {
+            out.viol("C18", "retry-attempt-trace-changed", format!("attempt {} of a retried call carried another trace id", k + 1));
+            break;
+        }
+    }
+    out.cell(format!("C20.retry.deadline-class{deadline_class}"));
+    out.nontrivial("C07");
     out.count("retry_attempts", calls.len() as u64);
     out.cell(format!("C20.retry.attempts{}", calls.len().min(9)));
     out.trace = vec![format!("retry: policy {policy:?} results {results:?} -> {} attempts, returned {got:?}", calls.len())];
     let mut h = FNV0;
-    fnv(&mut h, &format!("{policy:?}{}", results.iter().map(|r| if r.is_ok() { 'o' } else { 'e' }).collect::<String>()));
+    fnv(&mut h, &format!("{policy:?}{}{deadline_class}", results.iter().map(|r| if r.is_ok() { 'o' } else { 'e' }).collect::<String>()));
     out.sig = h;
     out.nontrivial("C20");
     out
